@@ -86,6 +86,13 @@ Theorem C15_raise_is_stable :
     make_inversion K inp p = Raise e -> run_history K inp code p h = (map (fun _ => Raise e) h, p).
 Proof. exact run_history_raise. Qed.
 
+(* 7b. The short cut "a preloaded _data_vector_mapper IS the data vector" of the w-tilde class (no function object) is
+       justified by nothing more than the shape of one kernel: the third law of [laws_for] follows from it. *)
+Theorem C15_dvm_shortcut_wtilde :
+  forall (T : Type) (K : kernels T) (inp : input T) (w : wtilde T),
+    shape_dv_wt K -> has_func inp = false -> p_dvm K inp (Some w) = p_dv K inp (Some w).
+Proof. exact dvm_law_wt. Qed.
+
 (* 8. Sensitivity: the two mutants violate the statements above on concrete inputs (integer toy kernels).
       (a) without copy.copy of the preloaded curvature matrix the second inversion sees F + H and the preloaded matrix is
           overwritten ([[1]] -> [[3]]); the code returns [[2]] twice;
@@ -131,7 +138,12 @@ Proof. exact formalism_hyps_hold. Qed.
 Example C15_hyps_noise : choose_wt inpA pA = true /\ s_wt pA = Some (ds_wt zds).
 Proof. split; reflexivity. Qed.
 
+(* theorem 7b *)
+Example C15_hyps_dvm_shortcut : shape_dv_wt zk /\ has_func inpD = false.
+Proof. exact (conj zk_shape inpD_no_func). Qed.
+
 Print Assumptions C15_preload_transparent.
+Print Assumptions C15_dvm_shortcut_wtilde.
 Print Assumptions C15_reuse_any_history.
 Print Assumptions C15_curvature_preload_unchanged.
 Print Assumptions C15_every_read_is_specified.
